@@ -227,21 +227,23 @@ class Winnow:
                     gg = b_and(g, gv, gp)
                     if gg is False:
                         continue
-                    res.append((gg, self.result_to_outcome(rv, sp)))
+                    for g4, o4 in self.result_to_outcomes(rv, sp):
+                        res.append((b_and(gg, g4), o4))
         res = self.norm(res, st)
         if key is not None:
             self.memo[key] = res
         return res
 
-    def result_to_outcome(self, rv, sp):
+    def result_to_outcomes(self, rv, sp):
         if not isinstance(rv, Adt) or rv.ty != "Result":
             raise _interp.Unsupported("parser returned %r" % (rv,))
         if rv.variant == "Ok":
-            return ok(rv.fields[0], sp)
-        e = rv.fields[0]
-        if isinstance(e, Union):
-            raise _interp.Unsupported("union ErrMode")
-        return err(e.variant, self.ctx_of(e.fields[0]), sp)
+            return [(True, ok(rv.fields[0], sp))]
+        out = []
+        for g, e in alts_of(rv.fields[0]):
+            for g2, ce in alts_of(e.fields[0]):
+                out.append((b_and(g, g2), err(e.variant, self.ctx_of(ce), sp)))
+        return out
 
     def ctx_of(self, ce):
         # ContextError value -> context tuple
